@@ -253,6 +253,9 @@ def run_swarm(case):
                         if overlap[0]:
                             out.fail('swarm:sequential-overlap', cdesc)
                 for e in starts:
+                    if e[1] not in expect_args:
+                        out.fail('swarm:foreign-member', '%s: the action ran for %s, which is not a member of this swarm' % (cdesc, e[1]))
+                        break
                     want = tuple(expect_args[e[1]])
                     if e[2] != want:
                         out.fail('swarm:arguments', '%s: member %s received %r, its entry is %r' % (cdesc, e[1], e[2], want))
@@ -387,6 +390,8 @@ def run_sync_members(case):
             else:
                 if exc is not None:
                     out.fail('swarm:open-raised', '%s: %r' % (desc, exc))
+                elif set(swarm._cfs) != set(uris):
+                    out.fail('swarm:foreign-member', '%s: the swarm holds members %r' % (desc, sorted(swarm._cfs)))
                 elif not all(scf.is_link_open() for scf in swarm._cfs.values()):
                     out.fail('swarm:member-not-open', desc)
                 swarm.close_links()
